@@ -583,19 +583,21 @@ func runC08(k int, rng *Rng) CaseResult {
 					in = lzIn{Kind: "get", UUID: pickUUID(r)}
 				case x < 67:
 					in = lzIn{Kind: "exist", UUID: pickUUID(r)}
-				case x < 74:
+				case x < 72:
 					in = lzIn{Kind: "count"}
-				case x < 82:
+				case x < 78:
 					in = lzIn{Kind: "all"}
-				case x < 87:
+				case x < 83:
 					in = lzIn{Kind: "slen", Path: pick(r, []string{"K", "I"}), Op: pick(r, []string{"=", "<", ">=", "!="}), V: r.Intn(5)}
-				case x < 90:
+				case x < 88:
 					in = lzIn{Kind: "aidx", Path: pick(r, []string{"K", "I"})}
 				case x < 94:
 					a := 6 + r.Intn(1000)
 					in = lzIn{Kind: "many", Batch: [][2]int{{a, r.Intn(4)}, {a + 1 + r.Intn(3), r.Intn(4)}}}
-					if r.P(0.3) {
-						in.Batch[1][0] = r.Intn(6) // may conflict with a stored key
+					if r.P(0.5) {
+						// a later member carries a key the other clients insert, update and delete at
+						// this very moment: whatever the batch's checks saw, it is stored whole or not at all
+						in.Batch[1][0] = r.Intn(6)
 					}
 				case x < 96:
 					in = lzIn{Kind: "delall"}
